@@ -322,6 +322,26 @@ func genReeval(depth int, emit func(tcase)) {
 	}
 }
 
+// prog: small programs with a stated result - keys that are present with a nil / falsy value and are spelled like
+// properties of maps; listing a map before and after it was shown (showing is not an operation on the map)
+func genProgs(emit func(tcase)) {
+	add := func(src, want string) { emit(tcase{Kind: "prog", Src: src, Exp: []string{want}}) }
+	for _, k := range []string{"len", "keys", "S", "first", "max", "p", "at", "values", "zz"} {
+		for _, v := range [][2]string{{"nil", "nil"}, {"0", "0"}, {"false", "false"}, {"\"\"", "\"\""}, {"[]", "[]"}} {
+			add(fmt.Sprintf("m := %%{\"%s\": %s, 'other: 1}\n[m[\"%s\"], m['%s], m.at([\"%s\"]), m.keys, %%{**m}[\"%s\"], %%{'q: 2, **m}['%s]]", k, v[0], k, k, k, k, k),
+				fmt.Sprintf("[%s, %s, %s, [\"%s\", \"other\"], %s, %s]", v[1], v[1], v[1], k, v[1], v[1]))
+		}
+	}
+	for _, lit := range [][3]string{{"%{2: 'b, 1: 'a, \"z\": 0, \"a\": 9}", "[2, 1, \"z\", \"a\"]", "[\"b\", \"a\", 0, 9]"}, {"%{'y: 1, 'x: 2, [2]: 3, [1]: 4}", "[\"y\", \"x\", [2], [1]]", "[1, 2, 3, 4]"}, {"%{7: 3, **%{9: 1, 8: 2}}", "[7, 9, 8]", "[3, 1, 2]"}} {
+		for _, show := range []string{"m.S", "m.repr", "m.p", "\"#{m}\"", "[m].S", "{in: m}.repr", "m == m", "m.S; m.S"} {
+			add("m := "+lit[0]+"\nk1 := m.keys\n"+show+"\n[k1, m.keys, m.values, m@{|k, v| k}, %{**m}.keys, m.items@{|kv| kv[0]}]", "["+lit[1]+", "+lit[1]+", "+lit[2]+", "+lit[1]+", "+lit[1]+", "+lit[1]+"]")
+		}
+	}
+	for _, show := range []string{"o.S", "o.repr", "o.p", "\"#{o}\"", "[o].S"} {
+		add("o := {b: 1, a: 2, _q: 3, _p: 4}\nk1 := o.keys(private?: true)\n"+show+"\n[k1, o.keys(private?: true), o.values(private?: true), o@{|k, v| k}]", `[["a", "b", "_p", "_q"], ["a", "b", "_p", "_q"], [2, 1, 4, 3], ["a", "b"]]`)
+	}
+}
+
 func specialBody(t tcase) string {
 	return fmt.Sprintf("o := %s\n[o.keys, o.keys(private?: true), o.values(private?: true), o.items(private?: true), o['%s]]", t.Src, t.Pairs[0][0])
 }
@@ -702,7 +722,7 @@ func judgeSeq(c *core.Ctx, t tcase, o panrun.Obs) {
 // ---------------------------------------------------------------- judging
 
 func nontrivial(t tcase) bool {
-	if t.Kind == "reeval" || t.Kind == "special" {
+	if t.Kind == "reeval" || t.Kind == "special" || t.Kind == "prog" {
 		return true
 	}
 	if len(t.Emb) > 0 {
@@ -784,6 +804,12 @@ func judge(c *core.Ctx, t tcase, o panrun.Obs) {
 	if t.Kind == "reeval" {
 		if len(a.Elems) != 2 || a.Elems[0].Inspect() != a.Elems[1].Inspect() {
 			viol("literal-evaluated-again", "every evaluation of the literal gives what a literal written for that operand gives: "+a.Elems[1].Inspect(), a.Elems[0].Inspect())
+		}
+		return
+	}
+	if t.Kind == "prog" {
+		if got := a.Inspect(); got != t.Exp[0] {
+			viol("program-with-stated-result", t.Exp[0], got)
 		}
 		return
 	}
@@ -890,9 +916,10 @@ func run(c *core.Ctx) {
 		genObjNames(c.Pick(3, 4), emit)
 		genCollide(emit)
 		genSpecial(emit)
+		genProgs(emit)
 		genReeval(c.Pick(3, 4), emit)
 	}, func(t tcase) string {
-		if t.Kind == "reeval" {
+		if t.Kind == "reeval" || t.Kind == "prog" {
 			return t.Src
 		}
 		if t.Kind == "special" {
@@ -943,7 +970,7 @@ func replay(c *core.Ctx, raw json.RawMessage) {
 	if t.Kind == "special" {
 		body = specialBody(t)
 	}
-	if t.Kind == "reeval" {
+	if t.Kind == "reeval" || t.Kind == "prog" {
 		body = t.Src
 	}
 	obs := c.R().Thunks("", []string{body}, "")
